@@ -2,6 +2,7 @@
 from hypothesis import strategies as st
 
 import itertools
+import os
 from .. import soups, px, contexts, monitor, docgrammar
 from ..alphabets import SIG, SIG_SMALL, EVERYTYPE_TOKENS, STRUCTURAL
 from ..engine import exc_key, exc_detail, ddmin, hyp_run, Result
@@ -59,6 +60,7 @@ def plan(tier, seed):
                for k in range(NSHARDS)]
     shards += [('vsoup', 2 if tier == 'quick' else 3, k) for k in range(NSHARDS)]
     shards += [('prefixerr', c, k) for c in sorted(PREFIX_ITEMS) for k in range(NSHARDS)]
+    shards += [('pathological',)]
     shards += [('rand', nrand // NSHARDS, seed * 1000 + k) for k in range(NSHARDS)]
     shards += [('docs', ndocs // NSHARDS, seed * 1000 + 100 + k) for k in range(NSHARDS)]
     shards += [('comp', ncomp // NSHARDS, seed * 1000 + 200 + k) for k in range(NSHARDS)]
@@ -71,7 +73,8 @@ def plan(tier, seed):
                                  'comp:nested-opener', 'stray:}', 'stray:\\end{x}',
                                  'stray:\\)', 'stray:\\]', 'unclosed:checked',
                                  'inner-document:checked', 'variants', 'prefix-kept-check',
-                                 'prefix-errors:default', 'prefix-errors:options']}
+                                 'prefix-errors:default', 'prefix-errors:options',
+                                 'pathological-lengths']}
 
 
 def tolerant(s, ctxname):
@@ -326,6 +329,8 @@ PREFIX_ITEMS = {
                 '\\oom{a}[b]', '\\olegacy*[a]{b}', '\\olegns[a]{b}',
                 '\\begin{oenv}*(a){b}c\\end{oenv}', '\\osns{x}*', '\\;*', 'a', ' '],
 }
+# pylatexenc-2 parser objects with a star after a first argument / a control symbol / an environment
+PREFIX_ITEMS['options'] += ['\\olegst{a}*{b}', '\\,*[2pt]', '\\begin{olegenv}*{x}y\\end{olegenv}']
 PREFIX_BREAKERS = ['}', '\\end{x}', '\\)', '\\]', '{', '$', '\\begin{x}', '\\textbf', '\\verb|', ']']
 PREFIX_TAILS = ['', 'z', ' {y}']
 
@@ -346,6 +351,49 @@ def run_prefix_errors(ctxname, k, res):
     res.label('prefix-errors:' + ctxname)
 
 
+PATHOLOGICAL = [('\\begin{' + 'a' * n + t) for n in (30, 64) for t in ('', '$x$', '\n', '%', '_', ' b}', '\\')] + \
+               [('\\end{' + 'ab*' * 12 + t) for t in ('', '$', '\n}')] + \
+               ['{' * 60, '$' * 61, '\\' * 61 + 'a', 'a ' * 1500, '[' * 80 + ']' * 80, '%' * 200 + '\n' * 40,
+                '\\begin{x}' * 30, '\\textbf' * 60, '~' * 300, '-' * 301, '\\verb' + '|' * 51]
+WALL_LIMIT_S = 90
+
+
+def _parse_in_child(s):
+    """tolerant and strict parse of s in this (child) process; the exit code is irrelevant"""
+    try:
+        tolerant(s, 'default')
+        strict(s, 'default')
+    except BaseException:
+        pass
+    os._exit(0)
+
+
+def run_pathological(res, only=None):
+    """inputs that are long in one dimension (an unclosed environment name of 30 / 64 characters,
+    hundreds of identical tokens).  Each is first parsed in a forked child that is killed after
+    WALL_LIMIT_S seconds -- work done inside the regular-expression engine is invisible to the work
+    budget and cannot be interrupted in-process; these inputs take milliseconds, so the limit is
+    four to five orders of magnitude of slack -- and, once known to end, checked in-process"""
+    import multiprocessing
+    mp = multiprocessing.get_context('fork')
+    for s in (only if only is not None else PATHOLOGICAL):
+        case = {'kind': 'pathological', 'ctx': 'default', 'src': s}
+        child = mp.Process(target=_parse_in_child, args=(s,))
+        child.start()
+        child.join(WALL_LIMIT_S)
+        if child.is_alive():
+            child.kill()
+            child.join()
+            res.case()
+            res.fail('nontermination:wall-clock:tolerant-or-strict-parse',
+                     'parsing %r (length %d) did not finish within %d s'
+                     % (s[:40] + '...', len(s), WALL_LIMIT_S), case)
+            break
+        check_source(s, 'default', res, case, count_nontriv=False)
+        res.nontriv(s)
+    res.label('pathological-lengths')
+
+
 def run_shard(shard, res):
     kind = shard[0]
     if kind == 'soup':
@@ -356,6 +404,8 @@ def run_shard(shard, res):
         res.exhaustive = True
     elif kind == 'prefixerr':
         run_prefix_errors(shard[1], shard[2], res)
+    elif kind == 'pathological':
+        run_pathological(res)
     elif kind == 'vsoup':
         _, L, k = shard
         for toks in soups.enum_tokens(SIG, L, k, NSHARDS):
@@ -398,6 +448,9 @@ def fuzz_case(s, i):
 
 
 def check_case(case, res):
+    if case['kind'] == 'pathological':
+        run_pathological(res, only=[case['src']])
+        return
     if case['kind'] == 'variant':
         v = case.get('variant')
         s = ''.join(case['tokens'])
@@ -429,6 +482,8 @@ def minimise(case, key):
         r = Result()
         check_case(c, r)
         return key in r.failures
+    if case['kind'] == 'pathological':
+        return case
     if case['kind'] in ('soup', 'variant'):
         return dict(case, tokens=ddmin(case['tokens'], lambda t: holds(dict(case, tokens=list(t)))))
     if case['kind'] == 'src':
